@@ -9,4 +9,5 @@ void registerAll()
     reg_auth();
     reg_lauth();
     reg_slot();
+    reg_fs();
 }
